@@ -19,6 +19,51 @@ CHECKS = {
             "DESIGN.md 4 C09"),
 }
 
+GEN = ("Generated-input search (Hypothesis strategies built by construction on dyadic grids, boundary-biased) compared "
+       "point by point with a slow pure-Python reference model written from the statement; ")
+GRID = "dyadic value grid (exact float arithmetic); numpy 1.26 / pandas 3.0 as installed; "
+CHECKS.update({
+    "C03": ("Hypothesis generated search + exhaustive integer-grid sweep against literal interval-membership model",
+            GEN + "values are placed on, one grid step beside and far from all bounds; suspect spans outside the fail span "
+            "must raise ValueError; all spans over {0..4}^2x{0..4}^2 and all valid_range bound/inclusivity combinations "
+            "are enumerated.", GRID + "valid_range_test gets ndarrays whose dtype matches its bounds, lower<=upper", "DESIGN.md 4 C03"),
+    "C04": ("Hypothesis generated search + exhaustive alphabet sweep; pointwise precedence model + algebraic laws",
+            "Every generated tuple of flag vectors (uint8/int64/float64, plain or masked with flag-valued junk under the "
+            "mask, non-flag values) is compared with a pointwise precedence model and checked for permutation / "
+            "duplication invariance, idempotence, associativity over a split, and aggregate()==qartod_compare; every "
+            "tuple of <=3 vectors of length <=2 over {1,2,3,4,9,0,7,masked} is enumerated (thorough).",
+            "vectors are equal-length 1-d numpy arrays as the function asserts", "DESIGN.md 4 C04"),
+    "C08": ("Hypothesis generated search + exhaustive calendar-day sweep against a literal last-match-wins model",
+            GEN + "times sit on ISO-week / day-of-year / month edges, tspan ends on observation times, values on span "
+            "bounds, depths missing under depth-banded members; every calendar day 2018-12-24..2022-01-07 is swept "
+            "against single periodic members.", GRID + "python datetime calendar arithmetic is the trusted definition of "
+            "the calendar periods; naive UTC whole seconds", "DESIGN.md 4 C08"),
+    "C10": ("Hypothesis generated search against exact Fraction (rate) and geographiclib (speed) reference models",
+            GEN + "thresholds are set exactly on a pair's rate / a hop's speed and 1 grid step / 1% beside it; irregular "
+            "axes from 1 s to 25 h; mismatched lengths must raise ValueError.",
+            GRID + "geographiclib Geodesic.WGS84.Inverse is the trusted geodesic; partly present positions not judged",
+            "DESIGN.md 4 C10"),
+    "C11": ("Hypothesis generated search + exhaustive small-alphabet sweep against a per-point window model",
+            GEN + "durations include non-multiples of the step, shorter than a step and longer than the series; "
+            "tolerances on and beside the window ranges present; all series of length <=7 over {0,0.5,1,missing} are "
+            "enumerated with 25 duration pairs and 4 tolerances.", GRID + "regular sampling (premise of the statement)",
+            "DESIGN.md 4 C11"),
+    "C12": ("Hypothesis generated search against a per-point trailing-window model",
+            GEN + "all 8 mode combinations (std/range x none/period/min_obs/min_period), periods exactly equal to point "
+            "distances (open left end), thresholds beside (range: exactly on) the spreads the model computes.",
+            GRID + "std spreads within 1e-4 of a threshold are not judged; windowed range with a missing value in the "
+            "window may be UNKNOWN", "DESIGN.md 4 C12"),
+    "C13": ("Hypothesis generated search against pairwise model + mirror (reverse) metamorphic relation",
+            GEN + "density increments are placed on and one grid step beside each threshold on down/up/down-up/"
+            "stationary/repeated-depth casts; the reversed profile must give reversed flags when nothing is missing; "
+            "pressure profiles are compared with a direction-sign model.",
+            GRID + "pressure profiles with zero mean step are not judged", "DESIGN.md 4 C13"),
+    "C14": ("Hypothesis generated search against statement-order model with geographiclib distances",
+            GEN + "positions on / beside box edges, partially missing positions, range_max exactly on a hop distance and "
+            "1% beside it; shape mismatch and malformed bbox must be rejected.",
+            GRID + "geographiclib Geodesic.WGS84.Inverse is the trusted geodesic", "DESIGN.md 4 C14"),
+})
+
 NOT_APPLICABLE = {}
 
 
